@@ -1,14 +1,1067 @@
-(* Proofs about Model/KTasks.v (C06). *)
+(* Proofs about Model/KTasks.v (C06).
+
+   Main result: an inductive invariant [IC] of every run of the model (all programs, schedules, root fires,
+   tick counts) that ties the table of temporary handlers and the task set to the phase of every wait state:
+     - which of <name>, <name>_done, generate_events handlers of a wait are installed is a function of its phase;
+     - accounting: (#times the waiting handler was resumed) + (1 if the wait is still live) +
+       (1 if its TimeoutError is pending as a task) = 1, always;
+     - a timeout fires exactly after tmo0+1 generate_events dispatches seen by the wait.
+   The invariant is proved for runs in which the machinery itself does not crash ([bad] stays false);
+   [bad] is part of the observable compared with the implementation on every case. *)
 From Coq Require Import List ZArith Bool Arith Lia.
 From Circ Require Import Model.KTasks.
 Import ListNotations.
 Open Scope Z_scope.
 
-(* witness of the open finding: callee generator handler raises after its first yield *)
+(* ------------------------------------------------------------------ lists *)
+
+Lemma nth_error_upd_nth : forall {A} (f : A -> A) l i j,
+  nth_error (upd_nth i f l) j = if Nat.eqb i j then option_map f (nth_error l j) else nth_error l j.
+Proof.
+  intros A f l. induction l as [|x r IH]; intros i j.
+  - destruct i, j; simpl; try reflexivity. destruct (Nat.eqb i j); reflexivity.
+  - destruct i, j; simpl; try reflexivity. apply IH.
+Qed.
+
+Lemma length_upd_nth : forall {A} (f : A -> A) l i, length (upd_nth i f l) = length l.
+Proof. intros A f l. induction l; intros [|i]; simpl; auto. Qed.
+
+Lemma nth_error_snoc : forall {A} (l : list A) x i y,
+  nth_error (l ++ [x]) i = Some y ->
+  (nth_error l i = Some y /\ (i < length l)%nat) \/ (i = length l /\ y = x).
+Proof.
+  intros A l x i y H. destruct (Nat.lt_ge_cases i (length l)) as [Hl|Hl].
+  - left. rewrite nth_error_app1 in H by assumption. auto.
+  - right. rewrite nth_error_app2 in H by assumption.
+    destruct (i - length l)%nat eqn:E.
+    + simpl in H. inversion H. split; [lia|reflexivity].
+    + simpl in H. destruct n; discriminate.
+Qed.
+
+Lemma th_eqb_eq : forall a b, th_eqb a b = true <-> a = b.
+Proof.
+  intros [x|x|x] [y|y|y]; simpl; split; intro H; try discriminate; try congruence;
+    try (apply Nat.eqb_eq in H; congruence); try (inversion H; apply Nat.eqb_refl).
+Qed.
+
+Lemma tref_eqb_eq : forall a b, tref_eqb a b = true <-> a = b.
+Proof.
+  intros [x|x|x] [y|y|y]; simpl; split; intro H; try discriminate; try congruence;
+    try (apply Nat.eqb_eq in H; congruence); try (inversion H; apply Nat.eqb_refl).
+Qed.
+
+Lemma onat_eqb_eq : forall a b, onat_eqb a b = true <-> a = b.
+Proof.
+  intros [x|] [y|]; simpl; split; intro H; try discriminate; try congruence.
+  - apply Nat.eqb_eq in H. congruence.
+  - inversion H. apply Nat.eqb_refl.
+Qed.
+
+Lemma task_eqb_eq : forall a b, task_eqb a b = true <-> a = b.
+Proof.
+  intros [e1 r1 p1] [e2 r2 p2]. unfold task_eqb. simpl. split.
+  - intro H. apply andb_prop in H. destruct H as [H H3]. apply andb_prop in H. destruct H as [H1 H2].
+    apply Nat.eqb_eq in H1. apply tref_eqb_eq in H2. apply onat_eqb_eq in H3. congruence.
+  - intro H. inversion H. subst. rewrite Nat.eqb_refl.
+    assert (tref_eqb r2 r2 = true) by (apply tref_eqb_eq; reflexivity).
+    assert (onat_eqb p2 p2 = true) by (apply onat_eqb_eq; reflexivity).
+    rewrite H0, H1. reflexivity.
+Qed.
+
+Lemma existsb_task : forall t l, existsb (task_eqb t) l = true <-> In t l.
+Proof.
+  intros t l. rewrite existsb_exists. split.
+  - intros [x [Hx He]]. apply task_eqb_eq in He. subst. assumption.
+  - intro H. exists t. split; [assumption|apply task_eqb_eq; reflexivity].
+Qed.
+
+Lemma has_th_In : forall h w, has_th h w = true <-> In h (ths w).
+Proof.
+  intros h w. unfold has_th. rewrite existsb_exists. split.
+  - intros [x [Hx He]]. apply th_eqb_eq in He. subst. assumption.
+  - intro H. exists h. split; [assumption|apply th_eqb_eq; reflexivity].
+Qed.
+
+Lemma In_del : forall h x l, In x (filter (fun u => negb (th_eqb h u)) l) <-> In x l /\ x <> h.
+Proof.
+  intros h x l. rewrite filter_In. split; intros [H1 H2]; split; auto.
+  - intro E. subst. assert (th_eqb h h = true) by (apply th_eqb_eq; reflexivity). rewrite H in H2. discriminate.
+  - destruct (th_eqb h x) eqn:E; [|reflexivity]. apply th_eqb_eq in E. congruence.
+Qed.
+
+Lemma In_unreg : forall t x l, In x (filter (fun u => negb (task_eqb t u)) l) <-> In x l /\ x <> t.
+Proof.
+  intros t x l. rewrite filter_In. split; intros [H1 H2]; split; auto.
+  - intro E. subst. assert (task_eqb t t = true) by (apply task_eqb_eq; reflexivity). rewrite H in H2. discriminate.
+  - destruct (task_eqb t x) eqn:E; [|reflexivity]. apply task_eqb_eq in E. congruence.
+Qed.
+
+(* ------------------------------------------------------------------ frames: what an operation leaves alone *)
+
+Definition triple (w : world) := (ths w, wsts w, tasks w).
+
+(* operations that touch neither handlers, wait states nor tasks, and never clear [bad] *)
+Definition quiet (f : world -> world) : Prop :=
+  forall w, triple (f w) = triple w /\ (bad w = true -> bad (f w) = true).
+
+Lemma quiet_id : quiet (fun w => w).
+Proof. intro w. auto. Qed.
+Lemma quiet_comp : forall f g, quiet f -> quiet g -> quiet (fun w => g (f w)).
+Proof.
+  intros f g Hf Hg w. destruct (Hf w) as [A B]. destruct (Hg (f w)) as [C D]. split; [congruence|auto].
+Qed.
+Lemma quiet_add_log : forall x, quiet (add_log x). Proof. intros x w. split; auto. Qed.
+Lemma quiet_set_bad : quiet set_bad. Proof. intro w. split; auto. Qed.
+Lemma quiet_push : forall q, quiet (push q). Proof. intros q w. split; auto. Qed.
+Lemma quiet_mod_evt : forall tok f, quiet (mod_evt tok f). Proof. intros tok f w. split; auto. Qed.
+Lemma quiet_mod_gen : forall g f, quiet (mod_gen g f). Proof. intros g f w. split; auto. Qed.
+Lemma quiet_set_gens : forall l, quiet (fun w => set_gens w l). Proof. intros l w. split; auto. Qed.
+Lemma quiet_set_queue : forall l, quiet (fun w => set_queue w l). Proof. intros l w. split; auto. Qed.
+
+Lemma fire_user_quiet : forall nm b h, quiet (fun w => fst (fire_user nm b h w)).
+Proof. intros nm b h w. split; auto. Qed.
+
+Lemma event_done_quiet : forall tok err, quiet (event_done tok err).
+Proof.
+  intros tok err w. unfold event_done.
+  destruct (nth_error (evs w) tok) as [e|]; [|split; auto].
+  destruct (e_waiting e =? 0); [|split; auto].
+  destruct (e_alert e); destruct err; split; auto.
+Qed.
+
+Lemma run_steps_quiet : forall sts tok hi k w,
+  triple (fst (fst (fst (run_steps tok hi k sts w)))) = triple w /\
+  (bad w = true -> bad (fst (fst (fst (run_steps tok hi k sts w)))) = true).
+Proof.
+  induction sts as [|s r IH]; intros tok hi k w; simpl.
+  - split; auto.
+  - destruct s; simpl; try (split; auto; fail).
+    + destruct fire; simpl; split; auto.
+    + specialize (IH tok hi (S k) (fst (fire_user nm tok 0 (add_log (LStep tok hi k) w)))).
+      destruct IH as [A B]. split.
+      * exact (eq_trans A eq_refl).
+      * intro Hb. apply B. exact Hb.
+Qed.
+
+Lemma gen_resume_quiet : forall gid how, quiet (fun w => fst (gen_resume gid how w)).
+Proof.
+  intros gid how w. unfold gen_resume.
+  destruct (nth_error (gens w) gid) as [g|]; [|split; auto].
+  destruct (g_rest g) as [sts|]; [|split; auto].
+  set (w1 := match how with
+             | RNext => if g_atcall g then set_bad w else w
+             | RSend _ => if g_atcall g then w else set_bad w
+             | RThrow => if g_atcall g then w else set_bad w end).
+  assert (Q1 : triple w1 = triple w /\ (bad w = true -> bad w1 = true)).
+  { unfold w1. destruct how; destruct (g_atcall g); split; auto. }
+  replace (match how with
+           | RNext => if g_atcall g then set_bad w else w
+           | RSend _ => if g_atcall g then w else set_bad w
+           | RThrow => if g_atcall g then w else set_bad w end) with w1 by reflexivity.
+  destruct Q1 as [T1 B1].
+  destruct how as [|e|].
+  - destruct (run_steps (g_tok g) (g_hi g) (g_k g) sts w1) as [[[w2 r] k'] rest] eqn:E.
+    pose proof (run_steps_quiet sts (g_tok g) (g_hi g) (g_k g) w1) as [A B]. rewrite E in A, B. simpl in A, B.
+    simpl. split; [unfold triple in *; simpl; congruence | intro Hb; simpl; auto].
+  - destruct (nth_error (evs w1) e) as [ev|].
+    + set (w2 := add_log _ w1).
+      destruct (run_steps (g_tok g) (g_hi g) (g_k g) sts w2) as [[[w3 r] k'] rest] eqn:E.
+      pose proof (run_steps_quiet sts (g_tok g) (g_hi g) (g_k g) w2) as [A B]. rewrite E in A, B. simpl in A, B.
+      simpl. split; [unfold triple in *; simpl in *; congruence | intro Hb; simpl; apply B; simpl; auto].
+    + set (w2 := set_bad w1).
+      destruct (run_steps (g_tok g) (g_hi g) (g_k g) sts w2) as [[[w3 r] k'] rest] eqn:E.
+      pose proof (run_steps_quiet sts (g_tok g) (g_hi g) (g_k g) w2) as [A B]. rewrite E in A, B. simpl in A, B.
+      simpl. split; [unfold triple in *; simpl in *; congruence | intro Hb; simpl; apply B; simpl; auto].
+  - destruct (g_catch g).
+    + set (w2 := add_log _ w1).
+      destruct (run_steps (g_tok g) (g_hi g) (g_k g) sts w2) as [[[w3 r] k'] rest] eqn:E.
+      pose proof (run_steps_quiet sts (g_tok g) (g_hi g) (g_k g) w2) as [A B]. rewrite E in A, B. simpl in A, B.
+      simpl. split; [unfold triple in *; simpl in *; congruence | intro Hb; simpl; apply B; simpl; auto].
+    + simpl. split; [unfold triple in *; simpl in *; congruence | intro Hb; simpl; auto].
+Qed.
+
+(* ------------------------------------------------------------------ the invariant *)
+
+Definition sid_of (h : th) : nat := match h with THEv s | THDone s | THTick s => s end.
+Definition is_rt (sid : nat) (t : task) : bool := tref_eqb (t_ref t) (RTimeout sid).
+Definition count_rt (sid : nat) (ts : list task) : nat := length (filter (is_rt sid) ts).
+Definition alive (ph : phase) : nat := match ph with Dead => 0 | _ => 1 end.
+
+Definition wst_time_ok (st : wst) : Prop :=
+  if s_timedout st then Z.of_nat (s_ticks st) = s_tmo0 st + 1
+  else (s_tmo0 st < 0 -> s_timeout st = s_tmo0 st) /\
+       (0 <= s_tmo0 st -> 0 <= s_timeout st /\ s_timeout st + Z.of_nat (s_ticks st) = s_tmo0 st).
+
+Record sid_ok (hs : list th) (ts : list task) (sid : nat) (st : wst) : Prop := {
+  so_ev : In (THEv sid) hs <-> s_ph st = Armed;
+  so_done : In (THDone sid) hs <-> s_ph st <> Dead;
+  so_tick : In (THTick sid) hs <-> (s_ph st = Armed \/ s_ph st = Seen) /\ 0 <= s_timeout st;
+  so_armed : s_ph st = Armed -> s_run st = false /\ s_event st = None;
+  so_tmo : s_timedout st = true -> s_ph st = Dead /\ s_timeout st = 0;
+  so_time : wst_time_ok st;
+  so_credit : (s_resumes st + alive (s_ph st) + count_rt sid ts = 1)%nat;
+  so_rt : (0 < count_rt sid ts)%nat -> s_timedout st = true }.
+
+Definition task_ok (ss : list wst) (t : task) : Prop :=
+  match t_ref t with
+  | RGen _ => t_parent t = None
+  | RWait sid => exists st, nth_error ss sid = Some st /\ s_ph st = Flagged /\
+                            t = mk_task (s_tevent st) (RWait sid) (Some (s_parent st))
+  | RTimeout sid => exists st, nth_error ss sid = Some st /\
+                               t = mk_task (s_tevent st) (RTimeout sid) (Some (s_parent st))
+  end.
+
+Definition IC3 (hs : list th) (ss : list wst) (ts : list task) : Prop :=
+  NoDup hs /\ (forall h, In h hs -> (sid_of h < length ss)%nat) /\
+  (forall sid st, nth_error ss sid = Some st -> sid_ok hs ts sid st) /\
+  NoDup ts /\ (forall t, In t ts -> task_ok ss t).
+
+Definition IC (w : world) : Prop := IC3 (ths w) (wsts w) (tasks w).
+Definition Inv (w : world) : Prop := bad w = true \/ IC w.
+
+Lemma quiet_Inv : forall f, quiet f -> forall w, Inv w -> Inv (f w).
+Proof.
+  intros f Q w [Hb|Hi]; destruct (Q w) as [T B].
+  - left. auto.
+  - right. unfold IC in *. unfold triple in T. inversion T. rewrite H0, H1, H2. assumption.
+Qed.
+
+(* count_rt *)
+Lemma count_rt_app : forall sid a b, count_rt sid (a ++ b) = (count_rt sid a + count_rt sid b)%nat.
+Proof. intros. unfold count_rt. rewrite filter_app, app_length. reflexivity. Qed.
+
+Lemma count_rt_unreg_other : forall sid t l, is_rt sid t = false ->
+  count_rt sid (filter (fun u => negb (task_eqb t u)) l) = count_rt sid l.
+Proof.
+  intros sid t l H. unfold count_rt. induction l as [|x r IH]; simpl; [reflexivity|].
+  destruct (task_eqb t x) eqn:E; simpl.
+  - apply task_eqb_eq in E. subst x. rewrite H. assumption.
+  - destruct (is_rt sid x); simpl; congruence.
+Qed.
+
+Lemma count_rt_zero : forall sid l, (forall t, In t l -> is_rt sid t = false) -> count_rt sid l = O.
+Proof.
+  intros sid l H. unfold count_rt. induction l as [|x r IH]; simpl; [reflexivity|].
+  rewrite (H x) by (left; reflexivity). apply IH. intros t Ht. apply H. right. assumption.
+Qed.
+
+Lemma count_rt_pos_In : forall sid l, (0 < count_rt sid l)%nat -> exists t, In t l /\ is_rt sid t = true.
+Proof.
+  intros sid l. unfold count_rt. induction l as [|x r IH]; simpl; [lia|].
+  destruct (is_rt sid x) eqn:E.
+  - intros _. exists x. auto.
+  - intro H. destruct (IH H) as [t [A B]]. exists t. auto.
+Qed.
+
+(* removing the one canonical RTimeout task of sid from a duplicate-free set *)
+Lemma count_rt_unreg_self : forall sid t l, NoDup l -> In t l -> is_rt sid t = true ->
+  (forall u, In u l -> is_rt sid u = true -> u = t) ->
+  count_rt sid (filter (fun u => negb (task_eqb t u)) l) = O.
+Proof.
+  intros sid t l ND Hin Hrt Hu. apply count_rt_zero. intros u Hu'. apply In_unreg in Hu'. destruct Hu' as [A B].
+  destruct (is_rt sid u) eqn:E; [|reflexivity]. exfalso. apply B. apply Hu; assumption.
+Qed.
+
+Lemma is_rt_other : forall sid sid' t, is_rt sid t = true -> sid <> sid' -> is_rt sid' t = false.
+Proof.
+  intros sid sid' t H Hn. unfold is_rt in *. apply tref_eqb_eq in H.
+  destruct (tref_eqb (t_ref t) (RTimeout sid')) eqn:E; [|reflexivity].
+  apply tref_eqb_eq in E. rewrite H in E. inversion E. contradiction.
+Qed.
+
+Lemma sid_ok_ext : forall hs ts hs' ts' sid st,
+  sid_ok hs ts sid st ->
+  (forall h, sid_of h = sid -> (In h hs' <-> In h hs)) ->
+  count_rt sid ts' = count_rt sid ts ->
+  sid_ok hs' ts' sid st.
+Proof.
+  intros hs ts hs' ts' sid st [A B C D E F G G2] Hh Hc.
+  constructor; auto.
+  - rewrite (Hh (THEv sid)) by reflexivity. assumption.
+  - rewrite (Hh (THDone sid)) by reflexivity. assumption.
+  - rewrite (Hh (THTick sid)) by reflexivity. assumption.
+  - rewrite Hc. assumption.
+  - rewrite Hc. assumption.
+Qed.
+
+Lemma NoDup_snoc : forall {A} (l : list A) a, NoDup l -> ~ In a l -> NoDup (l ++ [a]).
+Proof.
+  intros A l a ND Hn. induction l as [|x r IH]; simpl.
+  - constructor; [intros []|constructor].
+  - inversion ND; subst. constructor.
+    + rewrite in_app_iff. intros [H|[H|[]]]; [contradiction|]. subst. apply Hn. left. reflexivity.
+    + apply IH; [assumption|]. intro H. apply Hn. right. assumption.
+Qed.
+
+Lemma task_ok_app : forall ss x t, task_ok ss t -> task_ok (ss ++ [x]) t.
+Proof.
+  intros ss x t H. unfold task_ok in *. destruct (t_ref t) as [g|sid|sid]; [assumption| |].
+  - destruct H as [st [A B]]. exists st. split; [|assumption].
+    rewrite nth_error_app1; [assumption|]. apply nth_error_Some. congruence.
+  - destruct H as [st [A B]]. exists st. split; [|assumption].
+    rewrite nth_error_app1; [assumption|]. apply nth_error_Some. congruence.
+Qed.
+
+(* updating wait state sid with f that keeps the task-identifying fields; tasks RWait sid must stay Flagged *)
+Lemma task_ok_upd : forall ss sid f t, task_ok ss t ->
+  (forall st, s_tevent (f st) = s_tevent st /\ s_parent (f st) = s_parent st) ->
+  (t_ref t = RWait sid -> forall st, nth_error ss sid = Some st -> s_ph st = Flagged -> s_ph (f st) = Flagged) ->
+  task_ok (upd_nth sid f ss) t.
+Proof.
+  intros ss sid f t H Hf Hw. unfold task_ok in *. destruct (t_ref t) as [g|s|s] eqn:R; [assumption| |].
+  - destruct H as [st [A [B C]]]. rewrite nth_error_upd_nth. destruct (Nat.eqb sid s) eqn:E.
+    + apply Nat.eqb_eq in E. subst s. rewrite A. simpl. exists (f st). split; [reflexivity|].
+      destruct (Hf st) as [F1 F2]. rewrite F1, F2. split; [|assumption]. apply (Hw eq_refl st A B).
+    + exists st. auto.
+  - destruct H as [st [A C]]. rewrite nth_error_upd_nth. destruct (Nat.eqb sid s) eqn:E.
+    + apply Nat.eqb_eq in E. subst s. rewrite A. simpl. exists (f st). split; [reflexivity|].
+      destruct (Hf st) as [F1 F2]. rewrite F1, F2. assumption.
+    + exists st. auto.
+Qed.
+
+(* ------------------------------------------------------------------ task-set operations *)
+
+Lemma IC_reg_gen : forall w t g, IC w -> t_ref t = RGen g -> t_parent t = None -> IC (reg_task t w).
+Proof.
+  intros w t g [A [B [C [D E]]]] R P. unfold reg_task. destruct (existsb (task_eqb t) (tasks w)) eqn:X.
+  - exact (conj A (conj B (conj C (conj D E)))).
+  - assert (Hn : ~ In t (tasks w)). { intro H. apply existsb_task in H. congruence. }
+    unfold IC, IC3. simpl. split; [assumption|]. split; [assumption|]. split; [|split].
+    + intros sid st Hs. apply (sid_ok_ext (ths w) (tasks w)); [auto|tauto|].
+      rewrite count_rt_app. unfold count_rt at 2. simpl. unfold is_rt. rewrite R. simpl. lia.
+    + apply NoDup_snoc; assumption.
+    + intros u Hu. apply in_app_iff in Hu. destruct Hu as [Hu|[Hu|[]]]; [auto|]. subst u.
+      unfold task_ok. rewrite R. assumption.
+Qed.
+
+Lemma IC_unreg_gen : forall w t g, IC w -> t_ref t = RGen g -> IC (unreg_task t w).
+Proof.
+  intros w t g [A [B [C [D E]]]] R. unfold IC, IC3, unreg_task. simpl.
+  split; [assumption|]. split; [assumption|]. split; [|split].
+  - intros sid st Hs. apply (sid_ok_ext (ths w) (tasks w)); [auto|tauto|].
+    apply count_rt_unreg_other. unfold is_rt. rewrite R. reflexivity.
+  - apply NoDup_filter. assumption.
+  - intros u Hu. apply In_unreg in Hu. apply E. tauto.
+Qed.
+
+(* ------------------------------------------------------------------ install *)
+
+Lemma In_install : forall nm obj tmo cv tev par w h,
+  In h (ths (install nm obj tmo cv tev par w)) <->
+  In h (ths w) \/ h = THEv (length (wsts w)) \/ h = THDone (length (wsts w)) \/ (h = THTick (length (wsts w)) /\ 0 <= tmo).
+Proof.
+  intros. unfold install. destruct (0 <=? tmo) eqn:E; simpl.
+  - apply Z.leb_le in E. rewrite !in_app_iff. simpl. intuition (subst; auto).
+  - apply Z.leb_gt in E. rewrite !in_app_iff. simpl. intuition (subst; auto). lia.
+Qed.
+
+Lemma install_wsts : forall nm obj tmo cv tev par w,
+  wsts (install nm obj tmo cv tev par w) = wsts w ++ [new_wst nm obj tmo cv tev par].
+Proof. intros. unfold install. destruct (0 <=? tmo); reflexivity. Qed.
+Lemma install_tasks : forall nm obj tmo cv tev par w, tasks (install nm obj tmo cv tev par w) = tasks w.
+Proof. intros. unfold install. destruct (0 <=? tmo); reflexivity. Qed.
+Lemma install_bad : forall nm obj tmo cv tev par w, bad (install nm obj tmo cv tev par w) = bad w.
+Proof. intros. unfold install. destruct (0 <=? tmo); reflexivity. Qed.
+
+Lemma install_NoDup : forall nm obj tmo cv tev par w,
+  NoDup (ths w) -> (forall h, In h (ths w) -> (sid_of h < length (wsts w))%nat) ->
+  NoDup (ths (install nm obj tmo cv tev par w)).
+Proof.
+  intros nm obj tmo cv tev par w ND R. unfold install.
+  assert (F : forall h, sid_of h = length (wsts w) -> ~ In h (ths w)).
+  { intros h Hs Hin. apply R in Hin. lia. }
+  assert (N2 : NoDup ((ths w ++ [THEv (length (wsts w))]) ++ [THDone (length (wsts w))])).
+  { apply NoDup_snoc; [apply NoDup_snoc; [assumption|apply F; reflexivity]|].
+    rewrite in_app_iff. intros [H|[H|[]]]; [revert H; apply F; reflexivity|discriminate]. }
+  destruct (0 <=? tmo); simpl; [|exact N2].
+  apply NoDup_snoc; [exact N2|].
+  rewrite !in_app_iff. intros [[H|[H|[]]]|[H|[]]]; try discriminate. revert H. apply F. reflexivity.
+Qed.
+
+Lemma IC_install : forall nm obj tmo cv tev par w, IC w -> IC (install nm obj tmo cv tev par w).
+Proof.
+  intros nm obj tmo cv tev par w [A [B [C [D E]]]]. unfold IC, IC3.
+  rewrite install_wsts, install_tasks.
+  split; [apply install_NoDup; assumption|].
+  split.
+  { intros h Hh. apply In_install in Hh. rewrite app_length. simpl.
+    destruct Hh as [Hh|[Hh|[Hh|[Hh _]]]]; [apply B in Hh; lia|subst; simpl; lia..]. }
+  split.
+  { intros sid st Hs. apply nth_error_snoc in Hs. destruct Hs as [[Hs Hl]|[Hl Hs]].
+    - apply (sid_ok_ext (ths w) (tasks w)); [auto| |reflexivity].
+      intros h Hh. rewrite In_install. split; [|auto].
+      intros [H|[H|[H|[H _]]]]; [assumption|subst h; simpl in Hh; lia..].
+    - subst sid st.
+      assert (F : forall h, sid_of h = length (wsts w) -> ~ In h (ths w)).
+      { intros h Hs Hin. apply B in Hin. lia. }
+      assert (Z0 : count_rt (length (wsts w)) (tasks w) = O).
+      { apply count_rt_zero. intros t Ht. destruct (is_rt (length (wsts w)) t) eqn:X; [|reflexivity].
+        exfalso. unfold is_rt in X. apply tref_eqb_eq in X. specialize (E t Ht). unfold task_ok in E.
+        rewrite X in E. destruct E as [st [E1 _]].
+        assert (nth_error (wsts w) (length (wsts w)) <> None) by congruence.
+        apply nth_error_Some in H. lia. }
+      constructor; simpl.
+      + rewrite In_install. tauto.
+      + rewrite In_install. split; [discriminate|tauto].
+      + rewrite In_install. split.
+        * intros [H|[H|[H|[H H']]]]; [exfalso; revert H; apply F; reflexivity|discriminate..|tauto].
+        * tauto.
+      + auto.
+      + discriminate.
+      + unfold wst_time_ok. simpl. split; [auto|]. intros. lia.
+      + rewrite Z0. reflexivity.
+      + rewrite Z0. lia. }
+  split; [assumption|].
+  intros t Ht. apply task_ok_app. auto.
+Qed.
+
+(* ------------------------------------------------------------------ a step that concerns one wait state *)
+
+Lemma IC_local : forall hs ss ts hs' ts' sid f st,
+  IC3 hs ss ts -> nth_error ss sid = Some st ->
+  NoDup hs' -> (forall h, In h hs' -> In h hs) -> (forall h, sid_of h <> sid -> In h hs -> In h hs') ->
+  sid_ok hs' ts' sid (f st) ->
+  (forall sid', sid' <> sid -> count_rt sid' ts' = count_rt sid' ts) ->
+  NoDup ts' -> (forall t, In t ts' -> task_ok (upd_nth sid f ss) t) ->
+  IC3 hs' (upd_nth sid f ss) ts'.
+Proof.
+  intros hs ss ts hs' ts' sid f st [A [B [C [D E]]]] Hs ND Hsub Hoth Hok Hcnt NDt Htok.
+  split; [assumption|]. split.
+  { intros h Hh. rewrite length_upd_nth. auto. }
+  split.
+  { intros s2 st2 H2. rewrite nth_error_upd_nth in H2. destruct (Nat.eqb sid s2) eqn:X.
+    - apply Nat.eqb_eq in X. subst s2. rewrite Hs in H2. simpl in H2. inversion H2. subst. assumption.
+    - apply Nat.eqb_neq in X. apply (sid_ok_ext hs ts); [auto| |auto].
+      intros h Hh. split; [auto|]. intro. apply Hoth; [congruence|assumption]. }
+  split; assumption.
+Qed.
+
+Lemma NoDup_del : forall h l, NoDup l -> NoDup (filter (fun u => negb (th_eqb h u)) l).
+Proof. intros. apply NoDup_filter. assumption. Qed.
+
+(* _on_event *)
+Lemma on_event_Inv : forall tok w sid, IC w -> Inv (on_event tok w sid).
+Proof.
+  intros tok w sid H. unfold on_event. destruct (bad w) eqn:Bw; [left; assumption|].
+  destruct (nth_error (wsts w) sid) as [st|] eqn:Hs; [|left; reflexivity].
+  destruct (negb (s_run st) && obj_ok (s_obj st) tok); [|right; assumption].
+  unfold rem_th_k. destruct (has_th (THEv sid) w) eqn:Hh; [|left; reflexivity].
+  apply has_th_In in Hh. right.
+  change (IC3 (filter (fun u => negb (th_eqb (THEv sid) u)) (ths w)) (upd_nth sid (wst_seen tok) (wsts w)) (tasks w)).
+  pose proof H as [A [B [C [D E]]]]. pose proof (C sid st Hs) as [O1 O2 O3 O4 O5 O6 O7 O8].
+  assert (Ph : s_ph st = Armed) by (apply O1; assumption).
+  apply (IC_local (ths w) (wsts w) (tasks w) _ _ sid (wst_seen tok) st); auto.
+  - apply NoDup_del. assumption.
+  - intros h Hin. apply In_del in Hin. tauto.
+  - intros h Hn Hin. apply In_del. split; [assumption|]. intro. subst h. simpl in Hn. congruence.
+  - constructor; unfold wst_time_ok, wst_seen; cbn [s_ph s_run s_event s_timeout s_timedout s_resumes s_ticks s_tmo0].
+    + rewrite In_del. split; [intros [_ X]; congruence|discriminate].
+    + rewrite In_del. split; [discriminate|]. intros _. split; [|discriminate]. apply O2. rewrite Ph. discriminate.
+    + rewrite In_del. rewrite O3. rewrite Ph. split.
+      * intros [[_ X] _]. split; [right; reflexivity|assumption].
+      * intros [_ X]. split; [split; [left; reflexivity|assumption]|discriminate].
+    + discriminate.
+    + intro X. apply O5 in X. destruct X as [X _]. congruence.
+    + exact O6.
+    + rewrite Ph in O7. exact O7.
+    + exact O8.
+  - intros t Ht. apply task_ok_upd; [auto|intro; split; reflexivity|].
+    intros _ st0 Hs0 F. rewrite Hs in Hs0. inversion Hs0. subst. congruence.
+Qed.
+
+Ltac wcbn := unfold wst_time_ok, wst_seen, wst_phase, wst_resumed, wst_tick, wst_timeout, wst_thrown;
+             cbn [s_ph s_run s_event s_timeout s_timedout s_resumes s_ticks s_tmo0 s_tevent s_parent].
+
+Lemma count_rt_snoc_other : forall sid t l, is_rt sid t = false -> count_rt sid (l ++ [t]) = count_rt sid l.
+Proof. intros. rewrite count_rt_app. unfold count_rt at 2. simpl. rewrite H. simpl. lia. Qed.
+
+(* _on_done, for a wait whose <name>_done handler is installed *)
+Lemma on_done_Inv : forall tok w sid, IC w -> In (THDone sid) (ths w) -> Inv (on_done tok w sid).
+Proof.
+  intros tok w sid H Hd. unfold on_done. destruct (bad w) eqn:Bw; [left; assumption|].
+  destruct (nth_error (wsts w) sid) as [st|] eqn:Hs; [|left; reflexivity].
+  destruct (onat_eqb (s_event st) (Some tok)) eqn:Ev; [|right; assumption].
+  apply onat_eqb_eq in Ev.
+  pose proof H as [A [B [C [D E]]]]. pose proof (C sid st Hs) as [O1 O2 O3 O4 O5 O6 O7 O8].
+  assert (Pd : s_ph st <> Dead) by (apply O2; assumption).
+  assert (Pa : s_ph st <> Armed). { intro X. apply O4 in X. destruct X as [_ X]. congruence. }
+  set (t := mk_task (s_tevent st) (RWait sid) (Some (s_parent st))).
+  assert (Rt : forall s, is_rt s t = false) by reflexivity.
+  (* the world after registerTask and flag *)
+  set (ts' := tasks (reg_task t w)).
+  assert (Hts : NoDup ts' /\ (forall u, In u ts' <-> In u (tasks w) \/ u = t) /\ (forall s, count_rt s ts' = count_rt s (tasks w))).
+  { unfold ts', reg_task. destruct (existsb (task_eqb t) (tasks w)) eqn:X.
+    - apply existsb_task in X. split; [assumption|]. split; [|reflexivity]. intro u. split; [auto|]. intros [U|U]; [assumption|subst; assumption].
+    - simpl. split; [apply NoDup_snoc; [assumption|intro Y; apply existsb_task in Y; congruence]|].
+      split; [|intro s; apply count_rt_snoc_other; apply Rt].
+      intro u. rewrite in_app_iff. simpl. intuition. }
+  destruct Hts as [T1 [T2 T3]].
+  assert (Tok : forall u, In u ts' -> task_ok (upd_nth sid (wst_phase Flagged) (wsts w)) u).
+  { intros u Hu. apply T2 in Hu. destruct Hu as [Hu|Hu].
+    - apply task_ok_upd; [auto|intro; split; reflexivity|]. intros _ st0 _ _. reflexivity.
+    - subst u. unfold task_ok. simpl. exists (wst_phase Flagged st). rewrite nth_error_upd_nth, Nat.eqb_refl, Hs. simpl. auto. }
+  destruct (0 <=? s_timeout st) eqn:Tm.
+  - apply Z.leb_le in Tm. unfold rem_th_k.
+    destruct (has_th (THTick sid) (mod_wst sid (wst_phase Flagged) (reg_task t w))) eqn:Hh; [|left; reflexivity].
+    apply has_th_In in Hh. right.
+    replace (ths (mod_wst sid (wst_phase Flagged) (reg_task t w))) with (ths w) in Hh
+      by (unfold reg_task; destruct (existsb (task_eqb t) (tasks w)); reflexivity).
+    change (IC3 (filter (fun u => negb (th_eqb (THTick sid) u)) (ths (reg_task t w)))
+                (upd_nth sid (wst_phase Flagged) (wsts (reg_task t w))) ts').
+    replace (ths (reg_task t w)) with (ths w) by (unfold reg_task; destruct (existsb (task_eqb t) (tasks w)); reflexivity).
+    replace (wsts (reg_task t w)) with (wsts w) by (unfold reg_task; destruct (existsb (task_eqb t) (tasks w)); reflexivity).
+    apply (IC_local (ths w) (wsts w) (tasks w) _ _ sid (wst_phase Flagged) st); auto.
+    + apply NoDup_del. assumption.
+    + intros h Hin. apply In_del in Hin. tauto.
+    + intros h Hn Hin. apply In_del. split; [assumption|]. intro. subst h. simpl in Hn. congruence.
+    + constructor; wcbn.
+      * rewrite In_del. split; [intros [X _]; apply O1 in X; contradiction|discriminate].
+      * rewrite In_del. split; [discriminate|]. intros _. split; [assumption|discriminate].
+      * rewrite In_del. split; [intros [_ X]; congruence|]. intros [[X|X] _]; discriminate.
+      * discriminate.
+      * intro X. apply O5 in X. tauto.
+      * exact O6.
+      * rewrite T3. destruct (s_ph st); try contradiction; exact O7.
+      * rewrite T3. exact O8.
+  - apply Z.leb_gt in Tm. right.
+    change (IC3 (ths (reg_task t w)) (upd_nth sid (wst_phase Flagged) (wsts (reg_task t w))) ts').
+    replace (ths (reg_task t w)) with (ths w) by (unfold reg_task; destruct (existsb (task_eqb t) (tasks w)); reflexivity).
+    replace (wsts (reg_task t w)) with (wsts w) by (unfold reg_task; destruct (existsb (task_eqb t) (tasks w)); reflexivity).
+    apply (IC_local (ths w) (wsts w) (tasks w) _ _ sid (wst_phase Flagged) st); auto.
+    constructor; wcbn.
+    * split; [intro X; apply O1 in X; contradiction|discriminate].
+    * split; [discriminate|]. intros _. assumption.
+    * split; [intro X; apply O3 in X; lia|]. intros [[X|X] _]; discriminate.
+    * discriminate.
+    * intro X. apply O5 in X. tauto.
+    * exact O6.
+    * rewrite T3. destruct (s_ph st); try contradiction; exact O7.
+    * rewrite T3. exact O8.
+Qed.
+
+Lemma on_done_keeps_done : forall tok w sid s, In (THDone s) (ths w) -> In (THDone s) (ths (on_done tok w sid)).
+Proof.
+  intros tok w sid s H. unfold on_done. destruct (bad w); [assumption|].
+  destruct (nth_error (wsts w) sid) as [st|]; [|assumption].
+  destruct (onat_eqb (s_event st) (Some tok)); [|assumption].
+  cbv zeta. set (t := mk_task _ _ _).
+  assert (X : ths (reg_task t w) = ths w)
+    by (unfold reg_task; destruct (existsb (task_eqb t) (tasks w)); reflexivity).
+  destruct (0 <=? s_timeout st).
+  - unfold rem_th_k. destruct (has_th _ _).
+    + change (In (THDone s) (filter (fun u => negb (th_eqb (THTick sid) u)) (ths (reg_task t w)))).
+      rewrite X. apply In_del. split; [assumption|discriminate].
+    + change (In (THDone s) (ths (reg_task t w))). rewrite X. assumption.
+  - change (In (THDone s) (ths (reg_task t w))). rewrite X. assumption.
+Qed.
+
+(* _on_tick *)
+Lemma on_tick_fire : forall w sid st hs1,
+  IC w -> nth_error (wsts w) sid = Some st -> s_timeout st = 0 ->
+  NoDup hs1 -> (forall h, In h hs1 -> In h (ths w)) -> (forall h, sid_of h <> sid -> In h (ths w) -> In h hs1) ->
+  ~ In (THEv sid) hs1 -> In (THDone sid) hs1 -> In (THTick sid) hs1 ->
+  IC3 (filter (fun u => negb (th_eqb (THTick sid) u)) (filter (fun u => negb (th_eqb (THDone sid) u)) hs1))
+      (upd_nth sid wst_timeout (wsts w))
+      (tasks (reg_task (mk_task (s_tevent st) (RTimeout sid) (Some (s_parent st))) w)).
+Proof.
+  intros w sid st hs1 H Hs T0 ND Hsub Hoth Nev Hd Ht.
+  pose proof H as [A [B [C [D E]]]]. pose proof (C sid st Hs) as [O1 O2 O3 O4 O5 O6 O7 O8].
+  set (t := mk_task (s_tevent st) (RTimeout sid) (Some (s_parent st))).
+  assert (Ph : s_ph st = Armed \/ s_ph st = Seen). { apply Hsub in Ht. apply O3 in Ht. tauto. }
+  assert (Al : alive (s_ph st) = 1%nat) by (destruct Ph as [X|X]; rewrite X; reflexivity).
+  assert (R0 : s_resumes st = O /\ count_rt sid (tasks w) = O) by lia. destruct R0 as [R0 C0].
+  assert (Rt : is_rt sid t = true). { unfold is_rt, t. simpl. apply Nat.eqb_refl. }
+  assert (Hn : ~ In t (tasks w)).
+  { intro X. assert (0 < count_rt sid (tasks w))%nat; [|lia].
+    unfold count_rt. clear -X Rt. induction (tasks w) as [|x r IH]; [destruct X|]. simpl.
+    destruct X as [X|X]; [subst; rewrite Rt; simpl; lia|]. destruct (is_rt sid x); simpl; [lia|auto]. }
+  assert (Tk : tasks (reg_task t w) = tasks w ++ [t]).
+  { unfold reg_task. destruct (existsb (task_eqb t) (tasks w)) eqn:X; [|reflexivity].
+    apply existsb_task in X. contradiction. }
+  rewrite Tk.
+  apply (IC_local (ths w) (wsts w) (tasks w) _ _ sid wst_timeout st); auto.
+  - apply NoDup_del. apply NoDup_del. assumption.
+  - intros h Hin. apply In_del in Hin. destruct Hin as [Hin _]. apply In_del in Hin. apply Hsub. tauto.
+  - intros h Hn' Hin. apply In_del. split; [apply In_del; split; [auto|]|]; intro; subst h; simpl in Hn'; congruence.
+  - constructor; wcbn.
+    + rewrite !In_del. split; [tauto|discriminate].
+    + rewrite !In_del. split; [tauto|]. intro X. exfalso. apply X. reflexivity.
+    + rewrite !In_del. split; [tauto|]. intros [[X|X] _]; discriminate.
+    + discriminate.
+    + auto.
+    + unfold wst_time_ok in O6. destruct (s_timedout st) eqn:TO.
+      * destruct (O5 eq_refl) as [X _]. destruct Ph; congruence.
+      * destruct O6 as [P1 P2]. destruct (Z_lt_ge_dec (s_tmo0 st) 0) as [L|L]; [specialize (P1 L); lia|].
+        assert (0 <= s_tmo0 st) by lia. specialize (P2 H0). lia.
+    + rewrite count_rt_app. unfold count_rt at 2. simpl. rewrite Rt. simpl. lia.
+    + reflexivity.
+  - intros s' Hne. apply count_rt_snoc_other. apply (is_rt_other sid); [assumption|congruence].
+  - apply NoDup_snoc; assumption.
+  - intros u Hu. apply in_app_iff in Hu. destruct Hu as [Hu|[Hu|[]]].
+    + apply task_ok_upd; [auto|intro; split; reflexivity|].
+      intros _ st0 Hs0 F. rewrite Hs in Hs0. inversion Hs0. subst. destruct Ph; congruence.
+    + subst u. unfold task_ok. simpl. exists (wst_timeout st).
+      rewrite nth_error_upd_nth, Nat.eqb_refl, Hs. simpl. auto.
+Qed.
+
+Lemma reg_task_ths : forall t w, ths (reg_task t w) = ths w.
+Proof. intros. unfold reg_task. destruct (existsb _ _); reflexivity. Qed.
+Lemma reg_task_wsts : forall t w, wsts (reg_task t w) = wsts w.
+Proof. intros. unfold reg_task. destruct (existsb _ _); reflexivity. Qed.
+Lemma reg_task_bad : forall t w, bad (reg_task t w) = bad w.
+Proof. intros. unfold reg_task. destruct (existsb _ _); reflexivity. Qed.
+
+Lemma on_tick_Inv : forall w sid, IC w -> Inv (on_tick w sid).
+Proof.
+  intros w sid H. unfold on_tick. destruct (bad w) eqn:Bw; [left; assumption|].
+  destruct (nth_error (wsts w) sid) as [st|] eqn:Hs; [|left; reflexivity].
+  pose proof H as [A [B [C [D E]]]]. pose proof (C sid st Hs) as [O1 O2 O3 O4 O5 O6 O7 O8].
+  destruct (s_timeout st =? 0) eqn:T0.
+  - apply Z.eqb_eq in T0. cbv zeta. set (t := mk_task (s_tevent st) (RTimeout sid) (Some (s_parent st))).
+    destruct (s_run st) eqn:Rn.
+    + unfold rem_th_k.
+      destruct (has_th (THDone sid) (reg_task t w)) eqn:H1; [|left; reflexivity].
+      destruct (has_th (THTick sid) (del_th (THDone sid) (reg_task t w))) eqn:H2; [|left; reflexivity].
+      apply has_th_In in H1. apply has_th_In in H2. rewrite reg_task_ths in H1.
+      change (In (THTick sid) (filter (fun u => negb (th_eqb (THDone sid) u)) (ths (reg_task t w)))) in H2.
+      rewrite reg_task_ths in H2. apply In_del in H2. destruct H2 as [H2 _].
+      right.
+      change (IC3 (filter (fun u => negb (th_eqb (THTick sid) u)) (filter (fun u => negb (th_eqb (THDone sid) u)) (ths (reg_task t w))))
+                  (upd_nth sid wst_timeout (wsts (reg_task t w))) (tasks (reg_task t w))).
+      rewrite reg_task_ths, reg_task_wsts. apply on_tick_fire; auto.
+      intro X. apply O1 in X. apply O4 in X. destruct X. congruence.
+    + unfold rem_th_k.
+      destruct (has_th (THEv sid) (reg_task t w)) eqn:H0; [|left; reflexivity].
+      destruct (has_th (THDone sid) (del_th (THEv sid) (reg_task t w))) eqn:H1; [|left; reflexivity].
+      destruct (has_th (THTick sid) (del_th (THDone sid) (del_th (THEv sid) (reg_task t w)))) eqn:H2; [|left; reflexivity].
+      apply has_th_In in H0. apply has_th_In in H1. apply has_th_In in H2. rewrite reg_task_ths in H0.
+      change (In (THDone sid) (filter (fun u => negb (th_eqb (THEv sid) u)) (ths (reg_task t w)))) in H1.
+      change (In (THTick sid) (filter (fun u => negb (th_eqb (THDone sid) u))
+                 (filter (fun u => negb (th_eqb (THEv sid) u)) (ths (reg_task t w))))) in H2.
+      rewrite reg_task_ths in H1, H2. apply In_del in H2. destruct H2 as [H2 _].
+      right.
+      change (IC3 (filter (fun u => negb (th_eqb (THTick sid) u)) (filter (fun u => negb (th_eqb (THDone sid) u))
+                     (filter (fun u => negb (th_eqb (THEv sid) u)) (ths (reg_task t w)))))
+                  (upd_nth sid wst_timeout (wsts (reg_task t w))) (tasks (reg_task t w))).
+      rewrite reg_task_ths, reg_task_wsts. apply on_tick_fire; auto.
+      * apply NoDup_del. assumption.
+      * intros h X. apply In_del in X. tauto.
+      * intros h Hn X. apply In_del. split; [assumption|]. intro. subst h. simpl in Hn. congruence.
+      * rewrite In_del. intros [_ X]. apply X. reflexivity.
+  - apply Z.eqb_neq in T0. destruct (0 <? s_timeout st) eqn:T1; [|right; assumption].
+    apply Z.ltb_lt in T1. right.
+    change (IC3 (ths w) (upd_nth sid wst_tick (wsts w)) (tasks w)).
+    apply (IC_local (ths w) (wsts w) (tasks w) _ _ sid wst_tick st); auto.
+    + constructor; wcbn; auto.
+      * rewrite O3. intuition lia.
+      * intro X. apply O5 in X. lia.
+      * unfold wst_time_ok in O6. destruct (s_timedout st) eqn:TO; [destruct (O5 eq_refl); lia|].
+        destruct O6 as [P1 P2]. split; intro L; [specialize (P1 L); lia|specialize (P2 L); lia].
+    + intros u Hu. apply task_ok_upd; [auto|intro; split; reflexivity|]. intros _ st0 _ F. exact F.
+Qed.
+
+(* ------------------------------------------------------------------ processTask *)
+
+Lemma IC_quiet : forall f, quiet f -> forall w, IC w -> IC (f w).
+Proof.
+  intros f Q w H. destruct (Q w) as [T _]. unfold IC in *. unfold triple in T. inversion T. rewrite H1, H2, H3. assumption.
+Qed.
+
+Lemma IC_mod_evt : forall tok f w, IC w -> IC (mod_evt tok f w).
+Proof. intros tok f w H. exact H. Qed.
+Lemma IC_event_done : forall tok err w, IC w -> IC (event_done tok err w).
+Proof. intros tok err w H. exact (IC_quiet _ (event_done_quiet tok err) w H). Qed.
+
+Lemma continue_parent_IC : forall tev p how w, IC w -> IC (continue_parent tev p how w).
+Proof.
+  intros tev p how w H. unfold continue_parent.
+  pose proof (IC_quiet _ (gen_resume_quiet p how) w H) as H1. cbv beta in H1.
+  destruct (gen_resume p how w) as [w1 r]. simpl in H1.
+  destruct r.
+  - apply (IC_reg_gen _ _ p); [|reflexivity|reflexivity]. apply IC_mod_evt. assumption.
+  - apply IC_install. assumption.
+  - apply (IC_reg_gen _ _ p); [|reflexivity|reflexivity]. apply IC_mod_evt. assumption.
+  - apply IC_mod_evt. assumption.
+Qed.
+
+Lemma unreg_task_ths : forall t w, ths (unreg_task t w) = ths w. Proof. reflexivity. Qed.
+
+Lemma ptask_body_Inv : forall t w, IC w -> In t (tasks w) -> Inv (ptask_body t w).
+Proof.
+  intros t w H Hin. unfold ptask_body.
+  pose proof H as [A [B [C [D E]]]]. pose proof (E t Hin) as Tok. unfold task_ok in Tok.
+  destruct (t_ref t) as [g|sid|sid] eqn:R.
+  - (* the handler generator itself *)
+    pose proof (IC_quiet _ (gen_resume_quiet g RNext) w H) as H1. cbv beta in H1.
+    destruct (gen_resume g RNext w) as [w1 r]. simpl in H1. right.
+    destruct r.
+    + apply IC_mod_evt. assumption.
+    + apply IC_install. apply (IC_unreg_gen _ _ g); [|reflexivity]. apply IC_mod_evt. assumption.
+    + assert (IC (unreg_task t (mod_evt (t_ev t) (add_wait (-1)) w1))).
+      { apply (IC_unreg_gen _ _ g); [|assumption]. apply IC_mod_evt. assumption. }
+      destruct (t_parent t).
+      * apply (IC_reg_gen _ _ n); [assumption|reflexivity|reflexivity].
+      * apply IC_event_done. assumption.
+    + apply IC_mod_evt. apply (IC_unreg_gen _ _ g); assumption.
+  - (* the wait generator, registered by _on_done *)
+    destruct Tok as [st [Hs [Ph Tq]]]. rewrite Hs.
+    pose proof (C sid st Hs) as [O1 O2 O3 O4 O5 O6 O7 O8].
+    assert (Hd : In (THDone sid) (ths w)). { apply O2. rewrite Ph. discriminate. }
+    apply has_th_In in Hd. rewrite Hd.
+    destruct (match s_event st with Some e => Some e | None => s_callval st end) as [e|]; [|left; reflexivity].
+    rewrite Tq at 1. simpl t_parent. right.
+    apply continue_parent_IC.
+    change (IC3 (filter (fun u => negb (th_eqb (THDone sid) u)) (ths w)) (upd_nth sid wst_resumed (wsts w))
+                (filter (fun u => negb (task_eqb t u)) (tasks w))).
+    assert (Rt : forall s, is_rt s t = false). { intro s. unfold is_rt. rewrite R. reflexivity. }
+    rewrite Ph in O7. simpl in O7.
+    apply (IC_local (ths w) (wsts w) (tasks w) _ _ sid wst_resumed st); auto.
+    + apply NoDup_del. assumption.
+    + intros h X. apply In_del in X. tauto.
+    + intros h Hn X. apply In_del. split; [assumption|]. intro. subst h. simpl in Hn. congruence.
+    + constructor; wcbn.
+      * rewrite In_del. split; [intros [X _]; apply O1 in X; congruence|discriminate].
+      * rewrite In_del. split; [intros [_ X] _; apply X; reflexivity|]. intro X. exfalso. apply X. reflexivity.
+      * rewrite In_del. split; [intros [X _]; apply O3 in X; destruct X as [[X|X] _]; congruence|]. intros [[X|X] _]; discriminate.
+      * discriminate.
+      * intro X. apply O5 in X. destruct X. congruence.
+      * exact O6.
+      * rewrite count_rt_unreg_other by apply Rt. unfold alive. lia.
+      * rewrite count_rt_unreg_other by apply Rt. exact O8.
+    + intros s' _. apply count_rt_unreg_other. apply Rt.
+    + apply NoDup_filter. assumption.
+    + intros u Hu. apply In_unreg in Hu. destruct Hu as [Hu Hne].
+      pose proof (E u Hu) as Uok. unfold task_ok in *.
+      destruct (t_ref u) as [g'|s'|s'] eqn:Ru; [assumption| |].
+      * destruct Uok as [st' [Hs' [Ph' Uq]]]. destruct (Nat.eq_dec s' sid) as [X|X].
+        -- subst s'. rewrite Hs in Hs'. inversion Hs'. subst st'. exfalso. apply Hne. congruence.
+        -- exists st'. rewrite nth_error_upd_nth. apply Nat.eqb_neq in X. rewrite Nat.eqb_sym, X. auto.
+      * destruct Uok as [st' [Hs' Uq]]. rewrite nth_error_upd_nth. destruct (Nat.eqb sid s') eqn:X.
+        -- apply Nat.eqb_eq in X. subst s'. rewrite Hs'. simpl. exists (wst_resumed st'). auto.
+        -- exists st'. auto.
+  - (* the pending TimeoutError *)
+    destruct Tok as [st [Hs Tq]].
+    rewrite Tq at 1. simpl t_parent. right. apply continue_parent_IC.
+    change (IC3 (ths w) (upd_nth sid wst_thrown (wsts w)) (filter (fun u => negb (task_eqb t u)) (tasks w))).
+    pose proof (C sid st Hs) as [O1 O2 O3 O4 O5 O6 O7 O8].
+    assert (Rt : is_rt sid t = true). { unfold is_rt. rewrite R. simpl. apply Nat.eqb_refl. }
+    assert (Uq : forall u, In u (tasks w) -> is_rt sid u = true -> u = t).
+    { intros u Hu Ru. unfold is_rt in Ru. apply tref_eqb_eq in Ru. pose proof (E u Hu) as Uok. unfold task_ok in Uok.
+      rewrite Ru in Uok. destruct Uok as [st' [Hs' Uq]]. rewrite Hs in Hs'. inversion Hs'. subst st'. congruence. }
+    assert (C1 : (1 <= count_rt sid (tasks w))%nat).
+    { unfold count_rt. clear -Hin Rt. induction (tasks w) as [|x r IH]; [destruct Hin|]. simpl.
+      destruct Hin as [X|X]; [subst; rewrite Rt; simpl; lia|]. destruct (is_rt sid x); simpl; [lia|auto]. }
+    apply (IC_local (ths w) (wsts w) (tasks w) _ _ sid wst_thrown st); auto.
+    + constructor; wcbn; auto.
+      * rewrite (count_rt_unreg_self sid t) by assumption. lia.
+    + intros s' Hne. apply count_rt_unreg_other. apply (is_rt_other sid); [assumption|congruence].
+    + apply NoDup_filter. assumption.
+    + intros u Hu. apply In_unreg in Hu. destruct Hu as [Hu Hne].
+      apply task_ok_upd; [auto|intro; split; reflexivity|]. intros _ st0 _ F. exact F.
+Qed.
+
+(* processing one task removes no other task from the set *)
+Lemma quiet_tasks : forall f, quiet f -> forall w, tasks (f w) = tasks w.
+Proof. intros f Q w. destruct (Q w) as [T _]. unfold triple in T. inversion T. reflexivity. Qed.
+
+Lemma In_reg_task : forall t u w, In u (tasks w) -> In u (tasks (reg_task t w)).
+Proof. intros t u w H. unfold reg_task. destruct (existsb _ _); [assumption|]. simpl. apply in_app_iff. auto. Qed.
+
+Lemma continue_parent_tasks : forall tev p how w u, In u (tasks w) -> In u (tasks (continue_parent tev p how w)).
+Proof.
+  intros tev p how w u H. unfold continue_parent.
+  pose proof (quiet_tasks _ (gen_resume_quiet p how) w) as T. cbv beta in T.
+  destruct (gen_resume p how w) as [w1 r]. simpl in T. rewrite <- T in H.
+  destruct r; try (apply In_reg_task; exact H); [rewrite install_tasks|]; exact H.
+Qed.
+
+Lemma ptask_keeps : forall t u w, In u (tasks w) -> u <> t ->
+  (forall g, t_ref t = RGen g -> t_parent t = None) -> In u (tasks (ptask t w)).
+Proof.
+  intros t u w H Hne Hp. unfold ptask. destruct (bad w); [assumption|]. unfold ptask_body.
+  destruct (t_ref t) as [g|sid|sid] eqn:R.
+  - pose proof (quiet_tasks _ (gen_resume_quiet g RNext) w) as T. cbv beta in T.
+    destruct (gen_resume g RNext w) as [w1 r]. simpl in T. rewrite <- T in H.
+    assert (Tq : mk_task (t_ev t) (RGen g) None = t).
+    { pose proof (Hp g eq_refl) as Pn. destruct t as [e r' p']. simpl in *. subst. reflexivity. }
+    destruct r.
+    + exact H.
+    + rewrite install_tasks. rewrite Tq. simpl. apply In_unreg. auto.
+    + assert (X : In u (tasks (unreg_task t (mod_evt (t_ev t) (add_wait (-1)) w1)))) by (simpl; apply In_unreg; auto).
+      destruct (t_parent t); [apply In_reg_task; exact X|].
+      rewrite (quiet_tasks _ (event_done_quiet _ _)). exact X.
+    + simpl. apply In_unreg. auto.
+  - destruct (nth_error (wsts w) sid) as [st|]; [|exact H].
+    destruct (has_th (THDone sid) w).
+    + destruct (match s_event st with Some e => Some e | None => s_callval st end) as [e|]; [|exact H].
+      destruct (t_parent t); [|exact H].
+      apply continue_parent_tasks. simpl. apply In_unreg. auto.
+    + simpl. apply In_unreg. auto.
+  - destruct (t_parent t).
+    + apply continue_parent_tasks. simpl. apply In_unreg. auto.
+    + simpl. apply In_unreg. auto.
+Qed.
+
+Lemma ptask_Inv : forall t w, Inv w -> (bad w = false -> In t (tasks w)) -> Inv (ptask t w).
+Proof.
+  intros t w [Hb|Hi] Hin; unfold ptask.
+  - rewrite Hb. left. assumption.
+  - destruct (bad w) eqn:Bw; [left; assumption|]. apply ptask_body_Inv; auto.
+Qed.
+
+Lemma fold_ptask_Inv : forall l w, Inv w -> NoDup l -> (bad w = false -> forall u, In u l -> In u (tasks w)) ->
+  Inv (fold_left (fun w t => ptask t w) l w).
+Proof.
+  induction l as [|t r IH]; intros w Hi ND Hin; simpl; [assumption|].
+  inversion ND as [|? ? Hnt NDr]; subst.
+  apply IH; [apply ptask_Inv; [assumption|intro Bw; apply Hin; [assumption|left; reflexivity]]|assumption|].
+  intros Bw' u Hu.
+  destruct (bad w) eqn:Bw.
+  - unfold ptask in Bw'. rewrite Bw in Bw'. congruence.
+  - destruct Hi as [Hb|Hi]; [congruence|].
+    apply ptask_keeps; [apply Hin; [reflexivity|right; assumption]|intro; subst; contradiction|].
+    intros g R. destruct Hi as [_ [_ [_ [_ E]]]].
+    assert (In t (tasks w)) by (apply Hin; [reflexivity|left; reflexivity]).
+    specialize (E t H). unfold task_ok in E. rewrite R in E. exact E.
+Qed.
+
+(* the schedule only permutes *)
+Lemma pick_spec : forall w k l t r, pick w k l = Some (t, r) ->
+  In t l /\ (forall u, In u r -> In u l) /\ (NoDup l -> NoDup r /\ ~ In t r).
+Proof.
+  intros w k l. induction l as [|x l' IH]; intros t r H; simpl in H; [discriminate|].
+  destruct (key_eqb (tkey w x) k).
+  - inversion H; subst. split; [left; reflexivity|]. split; [intros; right; assumption|].
+    intro ND. inversion ND; subst. auto.
+  - destruct (pick w k l') as [[u r']|] eqn:P; [|discriminate]. inversion H; subst.
+    destruct (IH t r' eq_refl) as [A [B C]]. split; [right; assumption|]. split.
+    + intros u [Hu|Hu]; [left; assumption|right; apply B; assumption].
+    + intro ND. inversion ND; subst. destruct (C H3) as [C1 C2]. split.
+      * constructor; [intro X; apply H2; apply B; assumption|assumption].
+      * intros [X|X]; [subst; contradiction|contradiction].
+Qed.
+
+Lemma order_by_spec : forall w s l, NoDup l -> NoDup (order_by w s l) /\ (forall u, In u (order_by w s l) -> In u l).
+Proof.
+  intros w s. induction s as [|k s' IH]; intros l ND; simpl; [auto|].
+  destruct (pick w k l) as [[t r]|] eqn:P; [|apply IH; assumption].
+  destruct (pick_spec _ _ _ _ _ P) as [A [B C]]. destruct (C ND) as [C1 C2].
+  destruct (IH r C1) as [I1 I2]. split.
+  - constructor; [intro X; apply C2; apply I2; assumption|assumption].
+  - intros u [Hu|Hu]; [subst; assumption|apply B; apply I2; assumption].
+Qed.
+
+(* ------------------------------------------------------------------ _dispatcher, tick, run *)
+
+Lemma run_handlers_IC : forall hs tok hi w err, IC w -> IC (fst (run_handlers tok hi hs (w, err))).
+Proof.
+  induction hs as [|h r IH]; intros tok hi w err H; simpl; [assumption|].
+  destruct h as [v raises|c sts].
+  - destruct raises; apply IH; apply IC_mod_evt; exact H.
+  - apply IH. apply (IC_reg_gen _ _ (length (gens w))); [|reflexivity|reflexivity].
+    apply IC_mod_evt. exact H.
+Qed.
+
+Lemma fold_Inv : forall {A} (f : world -> A -> world) l w,
+  (forall w a, IC w -> Inv (f w a)) -> (forall w a, bad w = true -> f w a = w) ->
+  Inv w -> Inv (fold_left f l w).
+Proof.
+  intros A f l. induction l as [|a r IH]; intros w Hs Hb Hi; simpl; [assumption|].
+  apply IH; [assumption|assumption|]. destruct Hi as [B|I]; [rewrite Hb by assumption; left; assumption|auto].
+Qed.
+
+Lemma on_event_bad : forall tok w sid, bad w = true -> on_event tok w sid = w.
+Proof. intros. unfold on_event. rewrite H. reflexivity. Qed.
+Lemma on_done_bad : forall tok w sid, bad w = true -> on_done tok w sid = w.
+Proof. intros. unfold on_done. rewrite H. reflexivity. Qed.
+Lemma on_tick_bad : forall w sid, bad w = true -> on_tick w sid = w.
+Proof. intros. unfold on_tick. rewrite H. reflexivity. Qed.
+
+Lemma fold_on_done_Inv : forall tok l w, Inv w -> (forall s, In s l -> In (THDone s) (ths w)) ->
+  Inv (fold_left (on_done tok) l w).
+Proof.
+  intros tok l. induction l as [|a r IH]; intros w Hi Hd; simpl; [assumption|].
+  apply IH.
+  - destruct Hi as [B|I]; [rewrite on_done_bad by assumption; left; assumption|].
+    apply on_done_Inv; [assumption|apply Hd; left; reflexivity].
+  - intros s Hs. apply on_done_keeps_done. apply Hd. right. assumption.
+Qed.
+
+Lemma done_sids_In : forall w nm s, In s (done_sids w nm) -> In (THDone s) (ths w).
+Proof.
+  intros w nm s. unfold done_sids. rewrite in_flat_map. intros [h [Hh Hs]].
+  destruct h as [x|x|x]; try destruct Hs.
+  destruct (onat_eqb (name_of_sid w x) (Some nm)); [|destruct Hs].
+  destruct Hs as [Hs|[]]. subst. assumption.
+Qed.
+
+Lemma dispatch_Inv : forall p w q, Inv w -> Inv (dispatch p w q).
+Proof.
+  intros p w q Hi. unfold dispatch. destruct (bad w) eqn:Bw; [left; assumption|].
+  destruct Hi as [B|I]; [congruence|].
+  destruct q as [tok|tok|tok|].
+  - destruct (nth_error (evs w) tok) as [e|]; [|left; reflexivity].
+    pose proof (run_handlers_IC (handlers_of p (e_name e)) tok O (add_log (LDisp tok) (mod_evt tok set_dispatched w)) false) as R.
+    destruct (run_handlers tok O (handlers_of p (e_name e)) (add_log (LDisp tok) (mod_evt tok set_dispatched w), false)) as [w1 err].
+    simpl in R. apply (quiet_Inv _ (event_done_quiet tok err)).
+    apply fold_Inv; [intros; apply on_event_Inv; assumption|intros; apply on_event_bad; assumption|].
+    right. apply R. exact I.
+  - destruct (nth_error (evs w) tok) as [e|]; [|left; reflexivity].
+    apply fold_on_done_Inv; [right; assumption|]. intros s Hs. apply (done_sids_In _ _ _ Hs).
+  - destruct (nth_error (evs w) tok) as [e|]; [|left; reflexivity]. right. exact I.
+  - apply fold_Inv; [intros; apply on_tick_Inv; assumption|intros; apply on_tick_bad; assumption|right; assumption].
+Qed.
+
+Lemma dispatch_bad : forall p w q, bad w = true -> dispatch p w q = w.
+Proof. intros. unfold dispatch. rewrite H. reflexivity. Qed.
+
+Lemma fold_ptask_bad : forall l w, bad w = true -> fold_left (fun w t => ptask t w) l w = w.
+Proof.
+  induction l as [|t r IH]; intros w B; simpl; [reflexivity|].
+  unfold ptask at 2. rewrite B. apply IH. assumption.
+Qed.
+
+Lemma tick_Inv : forall p g sch t w, Inv w -> Inv (tick p g sch t w).
+Proof.
+  intros p g sch t w Hi. unfold tick.
+  set (w0 := add_log (LTick t) w).
+  assert (I0 : Inv w0) by (apply (quiet_Inv _ (quiet_add_log _)); assumption).
+  assert (I1 : Inv (fold_left (fun w t => ptask t w) (order_by w0 sch (tasks w0)) w0)).
+  { destruct I0 as [B|I].
+    - rewrite fold_ptask_bad by assumption. left. assumption.
+    - destruct (order_by_spec w0 sch (tasks w0)) as [N1 N2]; [destruct I as [_ [_ [_ [D _]]]]; exact D|].
+      apply fold_ptask_Inv; [right; assumption|assumption|]. intros _ u Hu. apply N2. assumption. }
+  set (w1 := fold_left (fun w t => ptask t w) (order_by w0 sch (tasks w0)) w0) in *.
+  assert (I2 : Inv (if g then push QGenEv w1 else w1)).
+  { destruct g; [apply (quiet_Inv _ (quiet_push _)); assumption|assumption]. }
+  set (w2 := if g then push QGenEv w1 else w1) in *.
+  apply fold_Inv; [intros; apply dispatch_Inv; right; assumption|intros; apply dispatch_bad; assumption|].
+  apply (quiet_Inv _ (quiet_set_queue [])). assumption.
+Qed.
+
+Lemma fire_roots_Inv : forall roots t w, Inv w -> Inv (fire_roots roots t w).
+Proof.
+  intros roots t. unfold fire_roots. induction roots as [|r rs IH]; intros w Hi; simpl; [assumption|].
+  apply IH. destruct (Nat.eqb (fst r) t); [|assumption].
+  apply (quiet_Inv _ (fire_user_quiet (snd r) O O)). assumption.
+Qed.
+
+Lemma run_from_Inv : forall p g scheds roots n t w, Inv w -> Inv (run_from p g scheds roots t n w).
+Proof.
+  intros p g scheds roots n. induction n as [|n IH]; intros t w Hi; simpl; [assumption|].
+  apply IH. apply tick_Inv. apply fire_roots_Inv. assumption.
+Qed.
+
+Lemma IC_init : IC init.
+Proof.
+  unfold IC, IC3, init. simpl. split; [constructor|]. split; [intros h []|]. split.
+  - intros sid st H. destruct sid; discriminate.
+  - split; [constructor|intros t []].
+Qed.
+
+Theorem run_Inv : forall p g scheds roots n, Inv (run p g scheds roots n).
+Proof. intros. unfold run. apply run_from_Inv. right. apply IC_init. Qed.
+
+(* ------------------------------------------------------------------ what the invariant says about a run *)
+
+Definition wants (h : th) (st : wst) : Prop :=
+  match h with
+  | THEv _ => s_ph st = Armed
+  | THDone _ => s_ph st <> Dead
+  | THTick _ => (s_ph st = Armed \/ s_ph st = Seen) /\ 0 <= s_timeout st
+  end.
+
+Lemma run_IC : forall p g scheds roots n, bad (run p g scheds roots n) = false -> IC (run p g scheds roots n).
+Proof. intros p g scheds roots n B. destruct (run_Inv p g scheds roots n) as [X|X]; [congruence|assumption]. Qed.
+
+Lemma residue_spec : forall p g scheds roots n, let w := run p g scheds roots n in bad w = false ->
+  NoDup (ths w) /\
+  forall h, In h (ths w) <-> exists st, nth_error (wsts w) (sid_of h) = Some st /\ wants h st.
+Proof.
+  intros p g scheds roots n w B. destruct (run_IC _ _ _ _ _ B) as [A [R [C _]]]. fold w in A, R, C.
+  split; [assumption|]. intro h. split.
+  - intro Hin. pose proof (R h Hin) as L. apply nth_error_Some in L.
+    destruct (nth_error (wsts w) (sid_of h)) as [st|] eqn:E; [|congruence]. exists st. split; [reflexivity|].
+    destruct (C _ _ E) as [O1 O2 O3 _ _ _ _ _]. destruct h; simpl in *; [apply O1|apply O2|apply O3]; assumption.
+  - intros [st [E W]]. destruct (C _ _ E) as [O1 O2 O3 _ _ _ _ _]. destruct h; simpl in *; [apply O1|apply O2|apply O3]; assumption.
+Qed.
+
+Lemma no_residue_all_dead : forall p g scheds roots n, let w := run p g scheds roots n in bad w = false ->
+  (forall sid st, nth_error (wsts w) sid = Some st -> s_ph st = Dead) ->
+  ths w = [] /\ forall t, In t (tasks w) -> forall sid, t_ref t <> RWait sid.
+Proof.
+  intros p g scheds roots n w B Hd. split.
+  - destruct (residue_spec p g scheds roots n B) as [_ S]. fold w in S.
+    destruct (ths w) as [|h r] eqn:E; [reflexivity|]. exfalso.
+    destruct (proj1 (S h) (or_introl eq_refl)) as [st [Hs W]]. pose proof (Hd _ _ Hs) as D.
+    destruct h; simpl in W; [congruence|congruence|destruct W as [[X|X] _]; congruence].
+  - intros t Ht sid R. destruct (run_IC _ _ _ _ _ B) as [_ [_ [_ [_ E]]]]. fold w in E.
+    specialize (E t Ht). unfold task_ok in E. rewrite R in E. destruct E as [st [Hs [Ph _]]].
+    rewrite (Hd _ _ Hs) in Ph. discriminate.
+Qed.
+
+Lemma resume_accounting : forall p g scheds roots n sid st, let w := run p g scheds roots n in bad w = false ->
+  nth_error (wsts w) sid = Some st ->
+  (s_resumes st + alive (s_ph st) + count_rt sid (tasks w) = 1)%nat.
+Proof.
+  intros p g scheds roots n sid st w B Hs. destruct (run_IC _ _ _ _ _ B) as [_ [_ [C _]]].
+  destruct (C _ _ Hs). assumption.
+Qed.
+
+Lemma resume_at_most_once : forall p g scheds roots n sid st, let w := run p g scheds roots n in bad w = false ->
+  nth_error (wsts w) sid = Some st ->
+  (s_resumes st <= 1)%nat /\ (s_resumes st = 1%nat -> s_ph st = Dead /\ count_rt sid (tasks w) = O).
+Proof.
+  intros p g scheds roots n sid st w B Hs. pose proof (resume_accounting p g scheds roots n sid st B Hs) as A.
+  fold w in A. split; [lia|]. intro R. split; [|lia]. destruct (s_ph st); simpl in A; try lia. reflexivity.
+Qed.
+
+Lemma timeout_not_early : forall p g scheds roots n sid st, let w := run p g scheds roots n in bad w = false ->
+  nth_error (wsts w) sid = Some st ->
+  (s_timedout st = true \/ (0 < count_rt sid (tasks w))%nat) ->
+  Z.of_nat (s_ticks st) = s_tmo0 st + 1 /\ s_ph st = Dead.
+Proof.
+  intros p g scheds roots n sid st w B Hs H. destruct (run_IC _ _ _ _ _ B) as [_ [_ [C _]]].
+  destruct (C _ _ Hs) as [_ _ _ _ O5 O6 _ O8].
+  assert (T : s_timedout st = true) by (destruct H; auto).
+  unfold wst_time_ok in O6. rewrite T in O6. split; [assumption|apply O5; assumption].
+Qed.
+
+Lemma live_countdown : forall p g scheds roots n sid st, let w := run p g scheds roots n in bad w = false ->
+  nth_error (wsts w) sid = Some st -> s_timedout st = false -> 0 <= s_tmo0 st ->
+  0 <= s_timeout st /\ s_timeout st + Z.of_nat (s_ticks st) = s_tmo0 st.
+Proof.
+  intros p g scheds roots n sid st w B Hs T L. destruct (run_IC _ _ _ _ _ B) as [_ [_ [C _]]].
+  destruct (C _ _ Hs) as [_ _ _ _ _ O6 _ _]. unfold wst_time_ok in O6. rewrite T in O6. apply O6. assumption.
+Qed.
+
+Lemma wait_task_flagged : forall p g scheds roots n t sid, let w := run p g scheds roots n in bad w = false ->
+  In t (tasks w) -> t_ref t = RWait sid ->
+  exists st, nth_error (wsts w) sid = Some st /\ s_ph st = Flagged /\ In (THDone sid) (ths w) /\
+             ~ In (THEv sid) (ths w) /\ ~ In (THTick sid) (ths w).
+Proof.
+  intros p g scheds roots n t sid w B Ht R. destruct (run_IC _ _ _ _ _ B) as [_ [_ [C [_ E]]]]. fold w in C, E.
+  specialize (E t Ht). unfold task_ok in E. rewrite R in E. destruct E as [st [Hs [Ph _]]].
+  exists st. destruct (C _ _ Hs) as [O1 O2 O3 _ _ _ _ _]. repeat split; try assumption.
+  - apply O2. rewrite Ph. discriminate.
+  - intro X. apply O1 in X. congruence.
+  - intro X. apply O3 in X. destruct X as [[X|X] _]; congruence.
+Qed.
+
+(* ------------------------------------------------------------------ witnesses *)
+
+(* open finding: the callee's generator handler raises after its first yield *)
 Definition prog_genraise : program :=
   [ [HGen true [SCall 1%nat (-1); SYield (Some 7)]]; [HGen true [SYield (Some 9); SRaise]] ].
 
 Lemma genraise_residue :
-  let w := run prog_genraise false [O] [(O, O)] 12 in
-  tasks w = [] /\ queue w = [] /\ ths w = [THDone O] /\ bad w = false.
-Proof. vm_compute. repeat split. Qed.
+  let w := run prog_genraise false [] [(O, O)] 12 in
+  tasks w = [] /\ queue w = [] /\ ths w = [THDone O] /\ bad w = false /\
+  exists st, nth_error (wsts w) O = Some st /\ s_resumes st = O.
+Proof. vm_compute. repeat split. eexists. split; reflexivity. Qed.
+
+(* non-vacuity: a call that returns, and a call that times out *)
+Definition prog_ok : program :=
+  [ [HGen true [SCall 1%nat (-1); SYield (Some 7)]]; [HPlain (Some 5) false; HGen true [SYield (Some 9)]] ].
+Definition prog_tmo : program :=
+  [ [HGen true [SCall 1%nat 1; SYield (Some 7)]]; [HGen true [SYield None; SYield None; SYield None; SYield None]] ].
